@@ -18,7 +18,9 @@
 
     Nothing is length-delimited.  [mac] (HMAC-SHA256) is a parameter; everything else is
     executable.  Definitions only. *)
+From Coq Require Export ZArith.
 From VLS Require Export Base.Eqb.
+Open Scope N_scope.
 
 Definition bytes : Type := list N.
 
@@ -100,6 +102,10 @@ Fixpoint flip_at (i : nat) (bit : N) (l : bytes) : bytes :=
   | b :: t, S j => b :: flip_at j bit t
   end.
 
+(** an i64 as the u64 with the same bits (i64::to_be_bytes; `version as u64` / `as i64`) *)
+Definition wire_version (v : Z) : N := Z.to_N (v mod 18446744073709551616).
+Definition is_i64 (v : Z) : Prop := (- 9223372036854775808 <= v < 9223372036854775808)%Z.
+
 Section WithMac.
   (** [mac key msg]: HMAC-SHA256 *)
   Variable mac : bytes -> bytes -> bytes.
@@ -142,7 +148,28 @@ Section WithMac.
     | None => None
     | Some (v, t) => if beq t (value_tag secret key ver v) then Some v else None
     end.
+  (** lightning-storage-server client driver: remove_and_check_hmacs, shared by PrivClient::get
+      (after the reply tag) and by the conflict branch of PrivClient::put.  The version on the wire
+      is an i64; it enters the per-record MAC as the 8 bytes of its two's complement
+      ([wire_version]).  EVERY record that comes back — whatever the sign of its version, whatever
+      its length — is opened with process_value_from_get; the first one that fails makes the whole
+      call fail (ClientError::InvalidHmac(key, version)); nothing is handed back unverified. *)
+  Definition wrecord : Type := bytes * Z * bytes.        (* key, i64 version, value on the wire *)
+  Fixpoint remove_and_check_hmacs (hmac_secret : bytes) (kvs : list wrecord) : option (list wrecord) :=
+    match kvs with
+    | [] => Some []
+    | (k, v, st) :: t =>
+        match process_value_from_get hmac_secret k (wire_version v) st with
+        | None => None
+        | Some y =>
+            match remove_and_check_hmacs hmac_secret t with
+            | None => None
+            | Some r => Some ((k, v, y) :: r)
+            end
+        end
+    end.
 End WithMac.
+
 
 (** ** Reads over time: the nonces one client sends
 
